@@ -237,7 +237,11 @@ func (c *Ctx) whoMayCall(rule, callee string, floor int, allowed map[string]stri
 		_, ok := allowed[cs.Caller.Name]
 		if !ok {
 			// an extracted block of an allowed caller (private helper with that sole call site) is part of it
-			_, ok = allowed[p.HelperRoot(cs.Caller).Name]
+			for name := range allowed {
+				if af := p.Funcs[name]; af != nil && p.helperWithin(cs.Caller, af) {
+					ok = true
+				}
+			}
 		}
 		c.Check(rule, "call "+callee+" from "+cs.Caller.Name, cs.Call, ok,
 			"%s may only be called from %v; called from %s", callee, keys(allowed), cs.Caller.Name)
